@@ -485,6 +485,21 @@ class Exec(Interp):
         finally:
             self.pure = was
 
+    def assume_invariant(self, obj):
+        """object invariant of a shape (is_valid of the type): assumed"""
+        from .stmts import gsub as _g
+        for t in getattr(obj, 'inv_texts', ()):
+            self.ctx.assume(self.as_goal(self.pure_eval(_g(t), Frame({'self': obj}, None))))
+
+    def owns(self, attr):
+        """the function under verification owns a representation field: its contract declares it modified"""
+        c = self.contract
+        if c is None:
+            return True
+        paths = list(getattr(c, 'modifies', [])) + list(getattr(c, 'yield_havoc', [])) + \
+            ['self.' + k for k in list(getattr(c, 'sets', {})) + list(getattr(c, 'sets_shape', {}))]
+        return any(p.split('.')[-1] == attr for p in paths if p != '*rep')
+
     def goal(self, text, fr, extra=None):
         """proof goal of a contract clause; a clause that cannot be evaluated on this path because the
         value it inspects has the wrong kind (len() of a bool, attribute of None) is a failed
